@@ -96,6 +96,19 @@ Definition apply_edits_rel (l : list msg) (es : list edit) : list msg :=
 Definition seq_edit_rel (s : seq) (es : list edit) : result seq :=
   do '(s1, r) <- get_rel s; Ok (mkseq (s_abs s1) (apply_edits_rel r es) true false).
 
+(* Sequence.merge: self.abs.merge([seq.abs for seq in sequences]); invalidate_rel; normalise.
+   Returns the merged sequence and the (refreshed) arguments. *)
+Fixpoint refresh_abs_all (l : list seq) : result (list seq * list (list msg)) :=
+  match l with
+  | [] => Ok ([], [])
+  | s :: l' => do '(s1, a) <- get_abs s; do '(r, as_) <- refresh_abs_all l'; Ok (s1 :: r, a :: as_)
+  end.
+Definition seq_merge (s : seq) (others : list seq) : result (seq * list seq) :=
+  do '(s1, a) <- get_abs s;
+  do '(os, as_) <- refresh_abs_all others;
+  do s2 <- seq_normalise (mkseq (merge_abs a as_) (s_rel s1) false true);
+  Ok (s2, os).
+
 (* ---------------------------------------------------------------- store and operations *)
 Definition store : Set := list seq.
 
